@@ -343,10 +343,16 @@ theorem select_rt (distinct : Bool) (exprs : List Expr) (from_ : List Tbl) (wher
   have e_having := whereOpt_rt hp .HAVING having hhaving (by omega) _ k3 rfl (by simp) _ s3
   have e_trig := triggers_rt hp trig htrig (by omega) _ k4 (by simp) _ s4
   have e_order := orderBy_rt hp orderBy horder (by omega) _ k5 (by simp) _ s5
+  have hdl : depthOE limOff ≤ d ∧ depthOE limCnt ≤ d := by
+    cases limCnt with
+    | none =>
+      have : limOff = none := by cases limOff <;> simp at hboth ⊢
+      subst this; simp [depthOE]
+    | some c => simp at hd; omega
   have e_limit := limit_rt hp limOff limCnt hlo hlc (by
     rcases hboth with h | h
     · left; simpa using h
-    · right; simpa using h) (by omega) (by omega) rest hf
+    · right; simpa using h) hdl.1 hdl.2 rest hf
   obtain ⟨t, ts, hh, _, hnd, _⟩ := item_head x (okItems_mem hitems x (by simp))
   have hdist : ∀ tl, headIs .DISTINCT (printE x ++ tl) = false := by
     intro tl; rw [hh]; simp [headIs_cons, hnd]
